@@ -811,6 +811,33 @@ func gen(c *lib.Ctx, rng *rand.Rand) []c08case {
 		}
 		add(liveCase("shape", p+s.tail, s.now, s.exp, s.why))
 	}
+	// configuration-looking components behind the configuration: after the asset name, between asset
+	// and MPD name, inside the segment path - every key, with and without a Location-producing prefix
+	{
+		val := map[string]string{"statuscode": "[{cycle:8,rsq:1,code:404}]", "traffic": "u10", "utc": "ntp", "timesubsstpp": "en", "timesubswvtt": "en",
+			"drm": "foo", "eccp": "cenc", "annexI": "a=b", "ato": "1", "chunkdur": "1", "timeoffset": "1"}
+		places := []string{"testpic_2s/%s/Manifest.mpd", "testpic_2s/%s/V300/45.m4s", "testpic_2s/V300/%s/45.m4s", "testpic_2s/V300/%s", "testpic_2s/%s", "%s/testpic_2s/%s/Manifest.mpd"}
+		prefixes := []string{"", "startrel_-20/", "stoprel_20/", "startrel_-20/stoprel_20/"}
+		for ki, k := range keys {
+			v := val[k]
+			if v == "" {
+				v = "1"
+			}
+			part := k + "_" + v
+			for pi, pl := range places {
+				for xi, pre := range prefixes {
+					if !c.Thorough() && (ki+pi+xi)%3 != 0 && !(k == "stoprel" || k == "startrel" || k == "stop") {
+						continue
+					}
+					tail := strings.ReplaceAll(pl, "%s", part)
+					if !strings.Contains(tail, ".") {
+						tail += ".mpd"
+					}
+					add(liveCase("misplaced", "/livesim2/"+pre+tail, "100000", "", ""))
+				}
+			}
+		}
+	}
 	// numbers around the live edge and far away, each representation
 	for _, rep := range []string{"V300", "A48"} {
 		for _, nr := range []int{0, 1, 13, 14, 15, 20, 44, 45, 48, 49, 50, 51, 60, 1000, 4294967295} {
@@ -862,6 +889,31 @@ func gen(c *lib.Ctx, rng *rand.Rand) []c08case {
 		`{"destination":"","livesimURL":"/livesim2/periods_0/testpic_2s/Manifest.mpd","testNowMS":100000}`,
 		`{"destination":"http://127.0.0.1:1/x","livesimURL":"x","testNowMS":-1,"duration":-5}`, `[1,2]`, `null`} {
 		add(c08case{Group: "endpoint", Req: c08req{Kind: "router", Method: "POST", URL: "/api/cmaf-ingests", Body: []byte(b), Hdr: map[string]string{"Content-Type": "application/json"}}})
+	}
+	// every field of the API body with malformed values
+	{
+		good := map[string]string{"destRoot": `"http://127.0.0.1:9"`, "destName": `"d"`, "livesimURL": `"/livesim2/testpic_2s/Manifest.mpd"`, "testNowMS": "100000", "duration": "2",
+			"user": `""`, "password": `""`, "streamsURLs": "false"}
+		bad := []string{`""`, `"%zz"`, `"/livesim2/a b"`, `"x"`, `"/"`, `"/livesim2/"`, `"/livesim2/periods_0/testpic_2s/Manifest.mpd"`, `"/livesim2/stoprel_x/testpic_2s/Manifest.mpd"`,
+			`"/livesim2/testpic_2s/V300/45.m4s"`, `"/livesim2/nosuch/Manifest.mpd"`, `"http://[::1"`, `"\u0000"`, "0", "-1", "9223372036854775807", "1e30", "1.5", "null", "true", "[]", "{}"}
+		order := []string{"destRoot", "destName", "livesimURL", "testNowMS", "duration", "user", "password", "streamsURLs"}
+		for fi, f := range order {
+			for bi, b := range bad {
+				if !c.Thorough() && f != "livesimURL" && (fi+bi)%4 != 0 {
+					continue
+				}
+				var kv []string
+				for _, g := range order {
+					v := good[g]
+					if g == f {
+						v = b
+					}
+					kv = append(kv, fmt.Sprintf("%q:%s", g, v))
+				}
+				add(c08case{Group: "api:fields", Req: c08req{Kind: "router", Method: "POST", URL: "/api/cmaf-ingests", Body: []byte("{" + strings.Join(kv, ",") + "}"),
+					Hdr: map[string]string{"Content-Type": "application/json"}}})
+			}
+		}
 	}
 	// patch
 	for _, u := range []string{
@@ -1151,6 +1203,19 @@ func genReceiver(c *lib.Ctx, rng *rand.Rand) []c08case {
 				continue
 			}
 			add("recv:bitflip-init", "PUT", fmt.Sprintf("%s/v%d/init.cmfv", base, i), b, nil)
+		}
+	}
+	// init uploads that consist of (almost) empty boxes
+	{
+		base := newCh()
+		k := 0
+		for _, typ := range []string{"moov", "ftyp", "styp", "moof", "mdat", "mvex", "trak", "free"} {
+			for _, body := range [][]byte{rawbox(8, typ, nil), append(rawbox(8, "ftyp", nil), rawbox(8, typ, nil)...), rawbox(16, typ, rawbox(8, "mvex", nil)),
+				rawbox(16, typ, rawbox(8, "trak", nil)), rawbox(12, typ, []byte{0, 0, 0, 0})} {
+				k++
+				add("recv:tiny-init", "PUT", fmt.Sprintf("%s/t%d/init.cmfv", base, k), body, nil)
+				add("recv:tiny-init", "PUT", fmt.Sprintf("%s/t%d/0.cmfv", base, k), seg0, nil)
+			}
 		}
 	}
 	// random bytes and odd paths
